@@ -143,6 +143,10 @@ def run_C12(ctx):
     rd = ctx.tlc("MC_C12", cfg="MC_C12_desc.cfg" if ctx.quick else "MC_C12_desc_thorough.cfg", timeout=1800, label="MC_C12(description)")
     resd = ctx.vh("scan-replay", rd.out, env={"VH_DISTINCT": "len"})
     ctx.absorb(resd, "G:scan-replay(description)")
+    # longer tapes over comments, annotations and mixed line breaks around two directives
+    rc = ctx.tlc("MC_C12", cfg="MC_C12_comments.cfg" if ctx.quick else "MC_C12_comments_thorough.cfg", timeout=1800, label="MC_C12(comments)")
+    resc = ctx.vh("scan-replay", rc.out, env={"VH_DISTINCT": "len"})
+    ctx.absorb(resc, "G:scan-replay(comments)")
     # V: the real scanner on whole corpus files and mutations of them, judged by Scanner.tla
     tp = os.path.join(ctx.scratch, "trace_scan.ndjson")
     rec = ctx.vh("scan-record", REPO, tp, 4 if ctx.quick else 1, 1 if ctx.quick else 3, ctx.seed)
